@@ -124,6 +124,8 @@ pub(crate) struct LiveEvents<'a> {
     /// chosen to go on (a `Deserialize` impl that falls back to a default), the input is broken
     /// all the same, and every later pull and `finish` report it again.
     io_failure: RefCell<Option<(std::io::ErrorKind, String)>>,
+    /// Number of events handed out by `next` (not `peek`) so far.
+    delivered: u64,
     /// A syntax error met while skipping the rest of a failed document; returned by the next pull.
     pending_error: Option<Error>,
 }
@@ -202,6 +204,7 @@ impl<'a> LiveEvents<'a> {
             error,
             io_failed: std::cell::Cell::new(false),
             io_failure: RefCell::new(None),
+            delivered: 0,
             pending_error: None,
         }
     }
@@ -254,6 +257,7 @@ impl<'a> LiveEvents<'a> {
             error: Rc::new(RefCell::new(None)),
             io_failed: std::cell::Cell::new(false),
             io_failure: RefCell::new(None),
+            delivered: 0,
             pending_error: None,
         }
     }
@@ -803,9 +807,14 @@ impl<'de> Events<'de> for LiveEvents<'de> {
 
         if let Some(ev) = self.look.take() {
             self.last_location = ev.location();
+            self.delivered += 1;
             return Ok(Some(ev));
         }
-        self.next_impl()
+        let ev = self.next_impl()?;
+        if ev.is_some() {
+            self.delivered += 1;
+        }
+        Ok(ev)
     }
     /// Peek at the next event without consuming it, filling the lookahead buffer if empty.
     fn peek(&mut self) -> Result<Option<&Ev<'de>>, Error> {
@@ -842,6 +851,12 @@ impl<'de> Events<'de> for LiveEvents<'de> {
 impl<'a> LiveEvents<'a> {
     pub(crate) fn seen_doc_end(&self) -> bool {
         self.seen_doc_end
+    }
+    /// Number of events handed out so far. The multi-document loops use it to notice a target
+    /// whose `Deserialize` impl returned without reading anything: the document is then still
+    /// in front of them and has to be stepped over, or they would meet it again for ever.
+    pub(crate) fn delivered(&self) -> u64 {
+        self.delivered
     }
     pub(crate) fn synthesized_null_emitted(&self) -> bool {
         self.synthesized_null_emitted
